@@ -479,3 +479,126 @@ def nontrivial(kind, v):
 def describe(kind, fmt, v):
     s = repr(v)
     return "%s fmt=%d %s" % (kind, fmt, s if len(s) < 300 else s[:300] + "...")
+
+
+# ------------------------------------------------------------------ blocks reached by editing in place
+def perturb(kind, fmt, v, rng):
+    """a second valid value of the same shape (same item and frame counts): other gap patterns, samples, labels,
+    header scalars — what a caller produces by editing a block's arrays and attributes in place"""
+    import copy
+    w = copy.deepcopy(v)
+    if kind in ("D3", "FT"):
+        w[1] = rint(rng, *I32)
+        w[2] = rf32(rng)
+        w[4] = [rf32(rng) for _ in range(3)]
+        key, ncomp = (9, 3) if kind == "D3" else (8, 9)
+        n = w[0] if kind == "D3" else w[3]
+        for t in w[key]:
+            t[0] = rlabel(rng, 256)
+            t[1] = rframes(rng, n, ncomp)
+    elif kind == "EM":
+        w[1] = rint(rng, *I32)
+        for t in w[5]:
+            t[0] = rlabel(rng, 256)
+            t[1] = rframes(rng, w[3], 1, scalar=True)
+    elif kind == "PD":
+        w[5] = [rframes(rng, w[3], 6) for _ in w[5]]
+    elif kind == "PC":
+        for p in w[3]:
+            p[0] = rlabel(rng, 256)
+            p[1] = [rf32(rng) for _ in range(2)]
+            p[2] = [rf32(rng) for _ in range(12)]
+    elif kind == "EV":
+        for e in w[2]:
+            e[0] = rlabel(rng, 256)
+            e[3] = [rf32(rng) for _ in e[3]]
+    elif kind == "OS":
+        for c in w[2]:
+            c[2], c[4] = rlabel(rng, 32), rlabel(rng, 32)
+            c[5] = [[rint(rng, *I32), rint(rng, *I32)], [rint(rng, *I32), rint(rng, *I32)]]
+    elif kind == "CA":
+        for c in w[6]:
+            c[2] = [rf64(rng), rf64(rng)]
+            c[-2] = [rf64(rng) for _ in c[-2]]
+    elif kind == "D2":
+        for row in w[6]:
+            for j in range(len(row)):
+                k = rng.choice((0, 0, 1, 2, len(row[j])))
+                row[j] = [[rf32(rng), rf32(rng)] for _ in range(k)]
+    return w
+
+
+def warm(o):
+    """everything a caller may have done with the object before editing it (sizes, encodings, comparisons, repr)"""
+    try:
+        o.nBytes
+        impl_write(o)
+        repr(o)
+        o == o
+        for x in o:
+            repr(x)
+            getattr(x, "nBytes", None)
+    except Exception:
+        pass
+
+
+def apply_inplace(kind, fmt, o, w):
+    """edit object o (built from a value of the same shape) IN PLACE so that it holds w: arrays through slice
+    assignment, strings and scalars through attribute assignment"""
+    if kind in ("D3", "FT"):
+        o.frequency = w[1]
+        o.startTime = f32s(w[2])
+        o.volume[...] = f32a(w[4])
+        key, ncomp = (9, 3) if kind == "D3" else (8, 9)
+        for t, (label, frames) in zip(o._tracks, w[key]):
+            t.label = txt(label)
+            a = frames_array(frames, ncomp)
+            if kind == "D3":
+                t.data[...] = a
+            else:
+                t.application_point[...] = a[:, 0:3]
+                t.force[...] = a[:, 3:6]
+                t.torque[...] = a[:, 6:9]
+    elif kind == "EM":
+        o.frequency = w[1]
+        for s, (label, frames) in zip(o._signals, w[5]):
+            s.label = txt(label)
+            a = np.full((len(frames),), NAN32, dtype="<f4")
+            u = a.view("<u4")
+            for i, fr in enumerate(frames):
+                if fr != []:
+                    u[i] = fr
+            s.data[...] = a
+    elif kind == "PD":
+        for p, frames in zip(o._platforms, w[5]):
+            a = frames_array(frames, 6)
+            p.application_point[...] = a[:, 0:2]
+            p.force[...] = a[:, 2:5]
+            p.torque[...] = a[:, 5]
+    elif kind == "PC":
+        for p, (label, size, pos, _pad) in zip(o._platforms, w[3]):
+            p.label = txt(label)
+            p.size[...] = f32a(size)
+            p.position[...] = f32a(pos, (4, 3))
+    elif kind == "EV":
+        for e, (label, k, n, vals) in zip(o.events, w[2]):
+            e.label = txt(label)
+            if n:
+                e.values[...] = f32a(vals)
+    elif kind == "OS":
+        for c, cv in zip(o.channels, w[2]):
+            c.lens_name, c.camera_name = txt(cv[2]), txt(cv[4])
+            c.camera_viewport.origin[...] = cv[5][0]
+            c.camera_viewport.size[...] = cv[5][1]
+    elif kind == "CA":
+        for c, cv in zip(o.cam_data, w[6]):
+            c.focus[...] = f64a(cv[2])
+            if fmt == 1:
+                c.thin_prism[...] = f64a(cv[-2])
+            else:
+                c.y_distortion_coefficients[...] = f64a(cv[-2])
+    elif kind == "D2":
+        d = o._data.data
+        for i, row in enumerate(w[6]):
+            for j, cell in enumerate(row):
+                d[i, j] = f32a([x for p in cell for x in p], (len(cell), 2)) if cell else None
